@@ -18,15 +18,25 @@ META = {
             "eth_abi library each run) round-trips through the strict decoder for every well-typed value of every "
             "type tree, its length is bounded by size_bound and equals static_size for static types, where the size "
             "functions are regenerated from vyper/abi_types.py on every run; zero padding is correct for all prior "
-            "memory.  The compiler's encoders are tied to the spec by differential execution: generated (type,value) "
+            "memory.  Structural models of both code generators' encoders write exactly enc for all prior memory "
+            "(Venc.v: abstract source value; SrcEnc.v: source READ word by word from storage or calldata, all slack "
+            "contents of the source arbitrary), and the word copy loops (legacy copy_bytes loop, Venom "
+            "load_storage_to_memory) are proved to be one write of the source words.  The IR both generators emit is "
+            "tied syntactically (vm_compute) to Coq template generators over a finite shape family for memory/cancun "
+            "AND for storage, calldata and pre-cancun (identity precompile / word copies) sources, and every observed "
+            "template is executed in Coq on dirty memory / dirty storage slack against enc and against the structural "
+            "model.  The compiler is additionally tied by differential execution: generated (type,value) "
             "pairs are pushed through the real compiler under the I.7 configurations and pyrevm via return data, "
             "event data/topics, abi_encode, outgoing-call calldata, custom-error and reason-string revert payloads, "
             "each after a memory-dirtying prelude, and compared byte for byte with enc computed in Coq.",
-    "level_note": "Proof is about the specification encoder/decoder and the translated size functions; the two code "
-                  "generators' encoders (abi_encoder.py) are tied by sampled differential execution, not proved. "
+    "level_note": "Proofs are about the specification encoder/decoder, the translated size functions and the structural "
+                  "encoder models; template generator = structural model is NOT proved (syntactic tie over the finite "
+                  "family + the observed templates executed in Coq against the model + sampled differential execution). "
+                  "Identity-precompile semantics (copies min(argsLen, retLen) bytes, succeeds) is assumed in XEval.v. "
                   "Trusted: Coq kernel + vm_compute, the abi_types mini-translator (validated per run against the "
-                  "real ABIType objects), pyrevm, eth_abi (only as a cross-check of the spec).",
-    "technique": "Coq proof over hand-written spec + regenerated size functions + differential correspondence",
+                  "real ABIType objects), the template exporters c06_tpl.py / c06_tplx.py, pyrevm, eth_abi (only as a "
+                  "cross-check of the spec).",
+    "technique": "Coq proof over hand-written spec + regenerated size functions + syntactic/executed template ties + differential correspondence",
 }
 
 KNOWN_EXTCALL_KEY = "extcall-calldata-length-is-size-bound"
